@@ -583,6 +583,8 @@ struct HGen<'a> {
     uniq: usize,
     /// allow present members of kinds the reader has no code for (recorded finding)
     unimpl: bool,
+    /// let extra INT members hold values outside i32 (recorded finding havok-int-beyond-i32)
+    wide: bool,
 }
 
 impl HGen<'_> {
@@ -664,6 +666,22 @@ impl HGen<'_> {
         utf8_name(rng, pool)
     }
 
+    fn int_value(&mut self) -> i64 {
+        if self.wide && self.rng.chance(1, 3) {
+            return *self.rng.pick(&[
+                1i64 << 31,
+                -(1i64 << 31),
+                (1i64 << 32) - 1,
+                (1i64 << 34) - 1,
+                1i64 << 34,
+                -(1i64 << 40),
+                i64::MAX,
+                -i64::MAX,
+            ]);
+        }
+        int_edge(self.rng)
+    }
+
     fn small_len(&mut self) -> usize {
         match self.rng.below(6) {
             0 => 0,
@@ -677,7 +695,7 @@ impl HGen<'_> {
     fn body(&mut self, base: u32, cls: &[u8], n: usize, depth: usize) -> HVal {
         match base {
             1 => HVal::Bytes(self.rng.bytes(n)),
-            2 => HVal::Ints(int_edge(self.rng), (0..n).map(|_| int_edge(self.rng)).collect()),
+            2 => HVal::Ints(int_edge(self.rng), (0..n).map(|_| self.int_value()).collect()),
             3 => HVal::Reals((0..n).map(|_| f32_edge(self.rng)).collect()),
             10 => HVal::Strs((0..n).map(|_| self.string()).collect()),
             8 => HVal::Refs((0..n).map(|_| self.rng.range(0, self.nobjs as u64) as usize).collect()),
@@ -748,7 +766,7 @@ impl HGen<'_> {
                     }
                     return match ty {
                         1 => HVal::Byte(self.rng.next() as u8),
-                        2 => HVal::Int(int_edge(self.rng)),
+                        2 => HVal::Int(self.int_value()),
                         3 => HVal::Real(f32_edge(self.rng)),
                         8 => HVal::Ref(self.rng.range(0, self.nobjs as u64) as usize),
                         _ => HVal::Str(self.string()),
@@ -841,7 +859,7 @@ fn gen_skel_std(rng: &mut Rng, out: &mut dyn Write, n: usize) {
 /// arbitrary type tables around the members the skeleton extraction needs
 fn gen_skel_any(rng: &mut Rng, out: &mut dyn Write, n: usize) {
     for i in 0..n {
-        let mut g = HGen { rng, tb: std_types(), pool: vec![], nobjs: 0, uniq: 0, unimpl: i % 40 == 39 };
+        let mut g = HGen { rng, tb: std_types(), pool: vec![], nobjs: 0, uniq: 0, unimpl: i % 40 == 39, wide: i % 40 == 19 };
         if g.rng.chance(1, 2) {
             g.tb.truncate(7); // the two classes skeleton files never instantiate are optional
         }
